@@ -112,6 +112,23 @@ class Stateful(Stateless):
         self._model = json.loads(state.decode())
 
 
+class Whole(Stateful):
+    """A stateful actor whose state is the whole object, hyper-parameters included (like an estimator pickled as its state):
+    set_state brings back the hyper-parameters of the training run - the flow layer has to put the current ones back."""
+
+    def get_state(self):
+        return json.dumps({'whole': self._model, 'params': self._params}, sort_keys=True).encode()
+
+    def set_state(self, state):
+        if not state:
+            return
+        content = json.loads(state.decode())
+        if 'whole' in content:
+            self._model, self._params = content['whole'], dict(content['params'])
+        else:
+            self._model = content
+
+
 class Mute(Stateless):
     """An actor whose output is the payload None (a perfectly legal value on an edge: the flow layer is payload-agnostic)."""
 
